@@ -28,6 +28,17 @@ REFUTATION = re.compile(
 PTR_BYTES = int(os.environ.get("VERIF_PTR_BYTES", "8"))
 
 
+def idx_lemma(repr_, bits, signed, proof):
+    if not signed:
+        return "" if proof else "true,"
+    if bits >= PTR_BYTES * 8:
+        body = "forall|i: usize| (#[verifier::truncate] ((#[trigger] (#[verifier::truncate] (i as R))) as U)) as usize == i"
+    else:
+        body = ("forall|i: usize| i < %d ==> (#[verifier::truncate] ((#[verifier::truncate] ((#[trigger] (#[verifier::truncate] (i as R))) as U)) as usize)) == i"
+                % (1 << bits))
+    return ("assert(%s) by (bit_vector);" % body) if proof else body + ","
+
+
 def prelude_text(repr_, shape, unsigned=None):
     t = open(os.path.join(VERIF, "contracts", "prelude.rs.tmpl")).read()
     bits, signed, comp = REPRS[repr_]
@@ -41,6 +52,8 @@ def prelude_text(repr_, shape, unsigned=None):
         "@R@": repr_, "@U@": unsigned or comp, "@RMIN@": "(%d)" % lo, "@RMAX@": str(hi), "@MOD@": "(%dint + 1)" % (hi - lo),
         "@SHAPE_AXIOM@": "runs().len() == 1" if shape == "gapless" else "runs().len() >= 2",
         "@SIGNED@": "true" if signed else "false",
+        "@IDX_ENSURES@": idx_lemma(repr_, bits, signed, False),
+        "@IDX_PROOF@": idx_lemma(repr_, bits, signed, True),
         "@CAST_ENSURES@": ("forall|w: R| (#[trigger] (#[verifier::truncate] (w as U))) as int == if w >= 0 { w as int } else { w as int + %d + 1 }," % (2 * hi + 1)) if signed else "true,",
         "@CAST_PROOF@": ("assert(forall|w: R| (#[trigger] (#[verifier::truncate] (w as U))) as int == if w >= 0 { w as int } else { w as int + %d + 1 }) by (bit_vector);" % (2 * hi + 1)) if signed else "",
     }
@@ -196,7 +209,7 @@ def classify(stderr):
 
 
 def verify_file(path, rlimit=30, threads=2, timeout=900):
-    cmd = ["verus", path, "--output-json", "--time", "--rlimit", str(rlimit), "--num-threads", str(threads), "--multiple-errors", "4"]
+    cmd = ["verus", path, "--output-json", "--time", "--rlimit", str(rlimit), "--num-threads", str(threads), "--multiple-errors", "4", "--triggers-mode", "silent"]
     rc, out, err, dt = run(cmd, cwd=os.path.dirname(path), timeout=timeout)
     try:
         js = json.loads(out)
@@ -224,7 +237,7 @@ def analyse(spec, text, fnmap, rc, js, err, dt):
     except Exception:
         pass
     for (a, b, key, props, emitted) in fnmap:
-        hits = [r for r in refut if a <= r[0] <= b or any(a <= g <= b for g in r[3][:1])]
+        hits = [r for r in refut if a <= r[0] <= b]
         rl = [o for o in other if "rlimit" in o.lower() or "resource limit" in o.lower()]
         st = "verified"
         reason = ""
